@@ -51,6 +51,46 @@ def worker(version, args):
                 else:
                     R.traces += 1
             del scn
+        # ---- 1b. strings whose STORED bytes end in more than the one terminating NUL (outside the encoder's normal
+        # form, so they cannot come from the generated trees): the base file with such strings written through the
+        # section API, decoded by the library (fresh load) and by the model
+        if base and drv:
+            with cc.quiet():
+                scn = AoE2DEScenario.from_file(base)
+            nset = 0
+            pool = ["one more\x00", "two more\x00\x00", "\x00", "mid\x00dle\x00", "é\x00\x00"]
+            for sec in scn.sections.values():
+                for rname, r in sec.retriever_map.items():
+                    if r.datatype.type == "str" and isinstance(r.data, str) and not (sec.name == "DataHeader" and rname == "filename") and nset < 12:
+                        setattr(sec, rname, pool[nset % len(pool)]); nset += 1
+            fn = os.path.join(tmp, "base.aoe2scenario")
+            with cc.quiet():
+                st_w, _ = common.outcome(scn.write_to_file, fn, skip_reconstruction=True)
+            del scn
+            if st_w == "ok":
+                raw = open(fn, "rb").read()
+                with cc.quiet():
+                    st_l, scn = common.outcome(AoE2DEScenario.from_file, fn)
+                os.remove(fn)
+                o = drv.batch([f"table {version}", "hdr " + cc.hexd(raw)])
+                n = int(o[1].split("consumed=")[1]) if o[1].startswith("ok") else None
+                R.case(key="nul-ended-strings", nontrivial=nset > 0, tags=("stored-strings:nul-ended",))
+                if n is not None and st_l == "ok":
+                    mine = cc.canon_scenario(scn)
+                    o = drv.batch([f"table {version}", "hdr " + cc.hexd(raw), "body " + cc.hexd(cc.inflate(raw[n:])), "dump"])
+                    if not o[2].startswith("ok") or o[3] != mine:
+                        d = cc.first_diff(mine, o[3])
+                        # the reference here is the definition itself (a `str` field is its stored bytes minus exactly ONE
+                        # terminating NUL, DESIGN B.1): a concrete file on which the library shows something else
+                        R.violation({"op": "decode", "what": "string with extra trailing NUL bytes"},
+                                    f"version {version}: a stored string that ends in more than one NUL byte is decoded differently from the "
+                                    f"structure definition at {cc.path_at(mine, d.get('at', 0)) if d else '?'}: library …{d.get('impl', '')[40:110]}… definition …{d.get('model', '')[40:110]}…",
+                                    {"version": version, "op": "nul-strings", "diff": d})
+                    else:
+                        R.traces += 1
+                elif n is not None:
+                    R.mismatch("strings stored with extra trailing NUL bytes: the library cannot load the file the model parses",
+                               {"version": version, "op": "nul-strings"}, impl="error", model="ok")
         # ---- 2. generated trees -----------------------------------------------------------------------
         ncases = args["ncases"]
         texts, cmds = [], [f"table {version}"]
